@@ -42,6 +42,7 @@ type (
 		Forall bool
 		Vars   []QVar
 		Body   Expr
+		Pats   []Expr
 	}
 	ETypeAssert struct {
 		X  Expr
@@ -205,9 +206,20 @@ func (p *parser) parseTop() Expr {
 			}
 			break
 		}
+		var pats []Expr
+		if p.isOp("{") {
+			p.next()
+			for !p.isOp("}") {
+				pats = append(pats, p.parseCond())
+				if p.isOp(",") {
+					p.next()
+				}
+			}
+			p.expect("}")
+		}
 		p.expect("::")
 		body := p.parseTop()
-		return &EQuant{t.s == "forall", vars, body}
+		return &EQuant{t.s == "forall", vars, body, pats}
 	}
 	return p.parseIff()
 }
@@ -404,6 +416,7 @@ type Clause struct {
 
 type LoopSpec struct {
 	Ordinal    int
+	Hints      []*Clause
 	Invariants []*Clause
 	Decreases  *Clause
 	Modifies   []string // optional explicit loop frame targets
@@ -432,6 +445,12 @@ type Contract struct {
 	Assumes   []*Clause // assumptions local to this function's verification (listed in evidence)
 	Reveal    []string
 	AllocBound *Clause
+	SplitDims [][]*Clause // one entry per split line: alternatives of that dimension
+	Splits    []*Clause // case split (over the entry state) tried when an obligation is not decided directly
+	Checks    []*Clause // facts that must follow from the preconditions (proved at entry)
+	Hints     []*Clause // trigger facts assumed at entry
+	PostHints []*Clause // trigger facts assumed at each return
+	Replay    map[string]string
 }
 
 type SpecFun struct {
@@ -467,9 +486,9 @@ func NewSpecs() *Specs {
 	return &Specs{Contracts: map[string]*Contract{}, Funs: map[string]*SpecFun{}, Ghosts: map[string]*GhostFun{}}
 }
 
-var keywordRe = regexp.MustCompile(`^(func|iface|functype|spec|ufun|hfun|haxiom|axiom|lemma|ghost|property|trusted|pure|implements|requires|ensures|modifies|loop|invariant|decreases|end|may_panic|nosafety|assume|alloc)\b`)
+var keywordRe = regexp.MustCompile(`^(func|iface|functype|spec|ufun|hfun|haxiom|axiom|lemma|ghost|property|trusted|pure|implements|requires|ensures|modifies|loop|invariant|decreases|end|may_panic|nosafety|assume|alloc|hint|posthint|replay|check|split)\b`)
 var labelRe = regexp.MustCompile(`^([A-Za-z_][A-Za-z0-9_.]*)\s*:([^:]|$)`)
-var propTagRe = regexp.MustCompile(`^\[([A-Z0-9 ,]+)\]\s*`)
+var propTagRe = regexp.MustCompile(`^\[([A-Za-z0-9 ,]+)\]\s*`)
 var headRe = regexp.MustCompile(`^(\S.*?)\(([^)]*)\)\s*(?:\(([^)]*)\))?\s*$`)
 
 // canonical name of a function header as written in package pkg.
@@ -617,6 +636,26 @@ func (sp *Specs) ParseSpecFile(path string, pkg string) error {
 			cur.NoSafety = true
 		case "implements":
 			cur.Impl = append(cur.Impl, strings.Fields(rest)...)
+		case "split":
+			var dim []*Clause
+			for _, part := range splitTop(rest) {
+				c, err := mkClause(l, part)
+				if err != nil {
+					return err
+				}
+				cur.Splits = append(cur.Splits, c)
+				dim = append(dim, c)
+			}
+			cur.SplitDims = append(cur.SplitDims, dim)
+		case "check":
+			c, err := mkClause(l, rest)
+			if err != nil {
+				return err
+			}
+			if c.Label == "" {
+				c.Label = fmt.Sprintf("c%d", len(cur.Checks))
+			}
+			cur.Checks = append(cur.Checks, c)
 		case "requires", "ensures", "assume":
 			if cur == nil {
 				return fmt.Errorf("%s:%d: %s outside contract", path, l.n, kw)
@@ -642,6 +681,25 @@ func (sp *Specs) ParseSpecFile(path string, pkg string) error {
 				}
 				cur.Assumes = append(cur.Assumes, c)
 			}
+		case "hint", "posthint":
+			c, err := mkClause(l, rest)
+			if err != nil {
+				return err
+			}
+			if curLoop != nil {
+				curLoop.Hints = append(curLoop.Hints, c)
+			} else if kw == "hint" {
+				cur.Hints = append(cur.Hints, c)
+			} else {
+				cur.PostHints = append(cur.PostHints, c)
+			}
+		case "replay":
+			// replay label: <Go boolean expression over a0.. r0..>
+			i := strings.Index(rest, ":")
+			if cur.Replay == nil {
+				cur.Replay = map[string]string{}
+			}
+			cur.Replay[strings.TrimSpace(rest[:i])] = strings.TrimSpace(rest[i+1:])
 		case "alloc":
 			c, err := mkClause(l, rest)
 			if err != nil {
